@@ -14,6 +14,7 @@ MIN_RTT = 1000
 
 US = 1000
 MS = 1_000_000
+WITNESS_TRUNC = ["new 1000", "update 0 1015 3 1 2", "update 0 1015 4 1 2"]
 
 
 def _sample(rng, base, us_only):
@@ -41,7 +42,7 @@ def gen(rng, n, tier):
             "update 30000000 200000000 30 0 2", "update 30000000 200000000 30 1 0", "update 250000000 200000000 40 0 2",
             "update 250000000 200000000 40 1 2", "pc", "update 0 50000000 50 1 2", "reset"]
     ops += ["new 15", "reset"]
-    ops += ["new 1000", "update 0 1015 3 1 2", "update 0 1015 4 1 2", "update 0 1015 5 1 2", "reset"]   # truncation witness (ns-granular)
+    ops += WITNESS_TRUNC + ["update 0 1015 5 1 2", "reset"]   # witness of rtt_in_sample_range_needs_mul8 (ns-granular)
     made = 0
     while made < n:
         us_only = rng.random() < 0.75          # the real clock is µs granular
